@@ -231,6 +231,21 @@ def job(cfg):
         check("Inv(mat) @ mat == I", prod, eye, None)
         res.record(f"{tag} Inv type", Outcome("held", how="structure") if isinstance(invA, FeArray) else Outcome("cex", env={}, how="structure"),
                    lambda env: (True, {"Inv_returns_FeArray": isinstance(invA, FeArray)}), key=f"{tag} Inv keeps FeArray type")
+        # coefficients held per element / constant, brought to field shape by FeArray.broadcast (stride-0 views along the broadcast axes):
+        # Det / Inv / Trace / matmul see the value of EACH element
+        PE = sym_array("pe", (Ne, dim, dim), 1, 2)
+        for i_ in range(dim):
+            for e_ in range(Ne):
+                PE[e_, i_, i_] = PE[e_, i_, i_] + 3  # well away from singular
+        full = FeArray.asfearray(np.array(np.broadcast_to(PE[:, None], (Ne, nPg, dim, dim)), dtype=object, copy=True))
+        with facade.symbolic():
+            facade.install()
+            Ab = FeArray.broadcast(PE, Ne, nPg, tensor_ndim=2)
+            detb, invb, trb = Det(Ab), Inv(Ab), Trace(Ab)
+        check("Det(per-element coefficient through FeArray.broadcast)", detb, per_point(Ne, nPg, det_plain, ("F", full)), True)
+        check("Trace(per-element coefficient through FeArray.broadcast)", trb, per_point(Ne, nPg, lambda x: sum(x[i, i] for i in range(dim)), ("F", full)), True)
+        check("Inv(per-element coefficient through FeArray.broadcast) @ mat == I", per_point(Ne, nPg, mm, ("F", invb), ("F", full)), per_point(Ne, nPg, lambda x: np.eye(dim, dtype=int).astype(object), ("F", full)), None)
+        check("per-element coefficient through FeArray.broadcast @ vec", Ab @ v, per_point(Ne, nPg, mm, ("F", full), ("F", v)), True)
         if 4 in ranks:
             T4, U4 = F[4], G[4]
             check("T4.ddot(mat)", T4.ddot(A), per_point(Ne, nPg, ddot_plain, ("F", T4), ("F", A)), True)
